@@ -291,10 +291,12 @@ def r08_4(run):
         ret = [n.ast for n, _ in p.steps if n.kind == 'stmt' and isinstance(n.ast, ast.Return)]
         run.ob('R08.4', wb, wb.node, 'when_built on a BUILT circuit succeeds at once', bool(ret) and 'succeed(self)' in src(ret[-1]), slot='when_built:BUILT',
                message='when_built() in state BUILT returns %s' % (src(ret[-1].value) if ret else None))
-    for p in g3.paths(eval_hook=hook_for_env({'self.state': 'LAUNCHED'})):
-        ret = [n.ast for n, _ in p.steps if n.kind == 'stmt' and isinstance(n.ast, ast.Return)]
-        run.ob('R08.4', wb, wb.node, 'when_built before BUILT waits on the one-shot observer', bool(ret) and src(ret[-1].value) == 'self._when_built.when_fired()', slot='when_built:pending',
-               message='when_built() before BUILT returns %s' % (src(ret[-1].value) if ret else None))
+    for S in ('LAUNCHED', 'EXTENDED', 'CLOSED', 'FAILED', 'UNKNOWN'):
+        for p in g3.paths(eval_hook=hook_for_env({'self.state': S})):
+            ret = [n.ast for n, _ in p.steps if n.kind == 'stmt' and isinstance(n.ast, ast.Return)]
+            run.ob('R08.4', wb, wb.node, 'when_built in state %s answers from the shared one-shot observer (so all waits share one outcome)' % S,
+                   bool(ret) and src(ret[-1].value) == 'self._when_built.when_fired()', slot='when_built:%s' % S,
+                   message='when_built() in state %s returns %s instead of the shared observer: a circuit that was BUILT and then closed answers later waits differently from earlier ones' % (S, src(ret[-1].value) if ret else None))
     so.check_so(run, 'R08.4')
 
 
